@@ -1,11 +1,340 @@
 /-
-Driver of word `sv` (saver / loader structural model, stream saveload).  Filled in by the
-save/load model work.
+Driver of word `sv` (structural save / load model, stream `sv`).
+
+  sv save <net-json>   → <pnet-json>            the tree `Acme.Save.save` builds
+  sv load <pnet-json>  → ok <net-json> | err <class> [<argument>]
+                                                 `Acme.Save.load`; the network is shown in the order
+                                                 normal form (`norm`) restricted to the definitions
+                                                 that are reachable (the Go side walks the getters)
+  sv example <net-json> / sv example-saved <pnet-json> → same=<bool>
+                                                 the JSON is `Acme.Save.Ex.net` / `save Ex.net` (ties the
+                                                 fixture of the stream to the example of the theorems);
+                                                 `sv print-example net|norm|saved` prints them
+  sv wf <net-json>     → wf=<bool> inrange=<bool> roundtrip=<bool>
+                                                 `NetWF`, `InRange` and `load (save n) = ok (norm n)`
+                                                 evaluated on the generator's output
+
+JSON is compact, contains no blank (the generator only uses blank-free texts) and objects are
+printed with sorted keys (`Lean.Json.compress`; the Go side re-marshals through a map).
+
+net-json:  {"e":E,"buses":[BUS],"builders":[BLD],"nodes":[NODE],"types":[E],"units":[E],"enums":[E],"attrs":[ATTR]}
+  E    = {"id","name","pl"}
+  BUS  = {"e":E,"builder":"" (= default),"ifaces":[{"node","num","msgs":[MSG]}],"asg":[ASG]}
+  MSG  = {"e":E,"asg":[ASG],"mid","static":-1|v,"sigs":[{"sig":SIG,"pos"}],"recvs":[{"node","num"}]}
+  SIG  = {"e":E,"asg":[ASG],"k":1|2|3,"type","unit","enum","gc","kids":[{"sig":SIG,"pos","fixed","grp":[..]}]}
+  ASG  = {"attr","val"}   BLD = {"e":E,"ops":[{"k","f","l"}]}   NODE = {"e":E,"nid","ifc","asg":[ASG]}
+  ATTR = {"e":E,"k":0 string|1 integer|2 float|3 enum,"vals":[..],"def"}
+pnet-json: the same shape for `acmelibv1.Network`:
+  PBUS = {"e","builder","ifaces":[{"node","num","msgs":[PMSG]}],"asg":[PASG]}
+  PMSG = {"e","asg","mid","sval","hs","sigs":[PSIG],"refs":[{"id","pos"}],"recvs":[{"node","num"}]}
+  PSIG = {"e","asg","kind","body":0 none|1 standard|2 enum|3 multiplexer,"type","unit","enum","gc",
+          "sigs":[PSIG],"fixed":[id],"groups":[[{"id","pos"}]]}
+  PASG = {"owner","attr","tag":0 string|1 int|2 double|3 unset,"val"}
+  PATTR = {"e","tag","body":0 none|1 string|2 integer|3 float|4 enum,"vals","def"}
+  PBLD = {"e","ops":[{"k","f","l"}]}   PNODE = {"e","nid","ifc","asg":[PASG]}
 -/
-import Acme.Driver.Util
+import Lean.Data.Json
+import Acme.Core.Save
+import Acme.Spec.Save
+import Acme.Spec.SaveDecEq
+import Acme.Spec.SaveExample
 
 namespace Acme.Driver.SaveD
+open Lean (Json)
+open Acme.Save
 
-def handle (_args : List String) : String := "bad-op"
+abbrev D := Except String
+
+def fld (j : Json) (k : String) : D Json := j.getObjVal? k
+def fStr (j : Json) (k : String) : D String := do (← fld j k).getStr?
+def fNat (j : Json) (k : String) : D Nat := do (← fld j k).getNat?
+def fInt (j : Json) (k : String) : D Int := do (← fld j k).getInt?
+def fBool (j : Json) (k : String) : D Bool := do (← fld j k).getBool?
+def fList {α : Type} (f : Json → D α) (j : Json) (k : String) : D (List α) := do
+  let v ← fld j k
+  if v.isNull then return []
+  let a ← v.getArr?
+  a.toList.mapM f
+def fStrs (j : Json) (k : String) : D (List String) := fList (·.getStr?) j k
+
+/-! ## decoding -/
+
+def dEnt (j : Json) : D Ent := do
+  pure { id := ← fStr j "id", name := ← fStr j "name", pl := ← fStr j "pl" }
+def fEnt (j : Json) : D Ent := do dEnt (← fld j "e")
+
+def dAsg (j : Json) : D Asg := do pure { attr := ← fStr j "attr", val := ← fStr j "val" }
+
+def dAttr (j : Json) : D Attr := do
+  let e ← fEnt j
+  let k ← fNat j "k"
+  let kind : AttrKind ←
+    match k with
+    | 0 => pure AttrKind.str
+    | 1 => pure AttrKind.int
+    | 2 => pure AttrKind.flt
+    | _ => pure (AttrKind.enm (← fStrs j "vals") (← fStr j "def"))
+  pure { e := e, kind := kind }
+
+def dOp (j : Json) : D Op := do
+  pure { kind := ← fNat j "k", «from» := ← fNat j "f", len := ← fNat j "l" }
+def dBuilder (j : Json) : D Builder := do pure { e := ← fEnt j, ops := ← fList dOp j "ops" }
+def dNode (j : Json) : D Node := do
+  pure { e := ← fEnt j, nid := ← fNat j "nid", ifc := ← fNat j "ifc", asg := ← fList dAsg j "asg" }
+
+partial def dSig (j : Json) : D Sig := do
+  let e ← fEnt j
+  let asg ← fList dAsg j "asg"
+  let k ← fNat j "k"
+  match k with
+  | 1 =>
+    let u ← fStr j "unit"
+    pure (.mk e asg (.std (← fStr j "type") (if u == "" then none else some u)))
+  | 2 => pure (.mk e asg (.enm (← fStr j "enum")))
+  | _ =>
+    let kids ← fList (fun kj => do
+      let s ← dSig (← fld kj "sig")
+      let fixed ← fBool kj "fixed"
+      let grp ← fList (·.getNat?) kj "grp"
+      pure (Kid.mk s (← fNat kj "pos") (if fixed then none else some grp))) j "kids"
+    pure (.mk e asg (.mux (← fNat j "gc") kids))
+
+def dRecv (j : Json) : D Recv := do pure { node := ← fStr j "node", num := ← fNat j "num" }
+
+def dMsg (j : Json) : D Msg := do
+  let st ← fInt j "static"
+  pure { e := ← fEnt j, asg := ← fList dAsg j "asg", mid := ← fNat j "mid"
+         static := if st < 0 then none else some st.toNat
+         sigs := ← fList (fun sj => do pure (← dSig (← fld sj "sig"), ← fNat sj "pos")) j "sigs"
+         recvs := ← fList dRecv j "recvs" }
+
+def dIface (j : Json) : D Iface := do
+  pure { node := ← fStr j "node", num := ← fNat j "num", msgs := ← fList dMsg j "msgs" }
+
+def dBus (j : Json) : D Bus := do
+  let b ← fStr j "builder"
+  pure { e := ← fEnt j, builder := if b == "" then none else some b
+         ifaces := ← fList dIface j "ifaces", asg := ← fList dAsg j "asg" }
+
+def dNet (j : Json) : D Net := do
+  pure { e := ← fEnt j, buses := ← fList dBus j "buses"
+         t := { builders := ← fList dBuilder j "builders", nodes := ← fList dNode j "nodes"
+                types := ← fList dEnt j "types", units := ← fList dEnt j "units"
+                enums := ← fList dEnt j "enums", attrs := ← fList dAttr j "attrs" } }
+
+def dPAsg (j : Json) : D PAsg := do
+  pure { owner := ← fStr j "owner", attr := ← fStr j "attr", tag := ← fNat j "tag", val := ← fStr j "val" }
+
+def dRef (j : Json) : D (Id × Nat) := do pure (← fStr j "id", ← fNat j "pos")
+
+partial def dPSig (j : Json) : D PSig := do
+  let e ← fEnt j
+  let asg ← fList dPAsg j "asg"
+  let kind ← fNat j "kind"
+  let b ← fNat j "body"
+  let body : PBody ←
+    match b with
+    | 0 => pure PBody.none
+    | 1 => pure (PBody.std (← fStr j "type") (← fStr j "unit"))
+    | 2 => pure (PBody.enm (← fStr j "enum"))
+    | _ =>
+      let groups ← fList (fun g => do (← g.getArr?).toList.mapM dRef) j "groups"
+      pure (PBody.mux (← fNat j "gc") (← fList dPSig j "sigs") (← fStrs j "fixed") groups)
+  pure (.mk e asg kind body)
+
+def dPMsg (j : Json) : D PMsg := do
+  pure { e := ← fEnt j, asg := ← fList dPAsg j "asg", mid := ← fNat j "mid", staticVal := ← fNat j "sval"
+         hasStatic := ← fBool j "hs", sigs := ← fList dPSig j "sigs", refs := ← fList dRef j "refs"
+         recvs := ← fList (fun r => do pure (← fStr r "node", ← fNat r "num")) j "recvs" }
+
+def dPIface (j : Json) : D PIface := do
+  pure { node := ← fStr j "node", num := ← fInt j "num", msgs := ← fList dPMsg j "msgs" }
+
+def dPBus (j : Json) : D PBus := do
+  pure { e := ← fEnt j, builder := ← fStr j "builder", ifaces := ← fList dPIface j "ifaces"
+         asg := ← fList dPAsg j "asg" }
+
+def dPAttr (j : Json) : D PAttr := do
+  let b ← fNat j "body"
+  let body : PAttrBody ←
+    match b with
+    | 0 => pure PAttrBody.none
+    | 1 => pure PAttrBody.str
+    | 2 => pure PAttrBody.int
+    | 3 => pure PAttrBody.flt
+    | _ => pure (PAttrBody.enm (← fStrs j "vals") (← fStr j "def"))
+  pure { e := ← fEnt j, tag := ← fNat j "tag", body := body }
+
+def dPOp (j : Json) : D POp := do
+  pure { kind := ← fNat j "k", «from» := ← fNat j "f", len := ← fNat j "l" }
+
+def dPNet (j : Json) : D PNet := do
+  pure { e := ← fEnt j, buses := ← fList dPBus j "buses"
+         builders := ← fList (fun b => do pure { e := ← fEnt b, ops := ← fList dPOp b "ops" }) j "builders"
+         nodes := ← fList (fun x => do
+            pure { e := ← fEnt x, nid := ← fNat x "nid", ifc := ← fNat x "ifc", asg := ← fList dPAsg x "asg" }) j "nodes"
+         types := ← fList dEnt j "types", units := ← fList dEnt j "units", enums := ← fList dEnt j "enums"
+         attrs := ← fList dPAttr j "attrs" }
+
+/-! ## encoding -/
+
+def jArr {α : Type} (f : α → Json) (xs : List α) : Json := Json.arr (xs.map f).toArray
+def jStrs (xs : List String) : Json := jArr Json.str xs
+def jNat (n : Nat) : Json := Json.num (Lean.JsonNumber.fromNat n)
+def jInt (n : Int) : Json := Json.num (Lean.JsonNumber.fromInt n)
+
+def eEnt (e : Ent) : Json := Json.mkObj [("id", e.id), ("name", e.name), ("pl", e.pl)]
+def eAsg (a : Asg) : Json := Json.mkObj [("attr", a.attr), ("val", a.val)]
+def ePAsg (a : PAsg) : Json :=
+  Json.mkObj [("owner", a.owner), ("attr", a.attr), ("tag", jNat a.tag), ("val", a.val)]
+def eRef (r : Id × Nat) : Json := Json.mkObj [("id", r.1), ("pos", jNat r.2)]
+
+partial def ePSig (s : PSig) : Json :=
+  let base := [("e", eEnt s.e), ("asg", jArr ePAsg s.asg), ("kind", jNat s.kind)]
+  let z : List (String × Json) :=
+    [("type", ""), ("unit", ""), ("enum", ""), ("gc", jNat 0), ("sigs", Json.arr #[]),
+     ("fixed", Json.arr #[]), ("groups", Json.arr #[])]
+  let upd (kvs : List (String × Json)) : List (String × Json) :=
+    z.map fun (k, v) => match kvs.find? (·.1 == k) with | some kv => kv | none => (k, v)
+  match s.body with
+  | .none => Json.mkObj (base ++ [("body", jNat 0)] ++ z)
+  | .std ty un => Json.mkObj (base ++ [("body", jNat 1)] ++ upd [("type", ty), ("unit", un)])
+  | .enm en => Json.mkObj (base ++ [("body", jNat 2)] ++ upd [("enum", en)])
+  | .mux gc sigs fixed groups =>
+    Json.mkObj (base ++ [("body", jNat 3)] ++
+      upd [("gc", jNat gc), ("sigs", jArr ePSig sigs), ("fixed", jStrs fixed),
+           ("groups", jArr (jArr eRef) groups)])
+
+def ePMsg (m : PMsg) : Json :=
+  Json.mkObj [("e", eEnt m.e), ("asg", jArr ePAsg m.asg), ("mid", jNat m.mid), ("sval", jNat m.staticVal),
+    ("hs", Json.bool m.hasStatic), ("sigs", jArr ePSig m.sigs), ("refs", jArr eRef m.refs),
+    ("recvs", jArr (fun r : Id × Nat => Json.mkObj [("node", r.1), ("num", jNat r.2)]) m.recvs)]
+
+def ePBus (b : PBus) : Json :=
+  Json.mkObj [("e", eEnt b.e), ("builder", b.builder), ("asg", jArr ePAsg b.asg),
+    ("ifaces", jArr (fun i : PIface =>
+       Json.mkObj [("node", i.node), ("num", jInt i.num), ("msgs", jArr ePMsg i.msgs)]) b.ifaces)]
+
+def ePAttr (a : PAttr) : Json :=
+  let (b, vs, d) : Nat × List String × String :=
+    match a.body with
+    | .none => (0, [], "") | .str => (1, [], "") | .int => (2, [], "") | .flt => (3, [], "")
+    | .enm vs d => (4, vs, d)
+  Json.mkObj [("e", eEnt a.e), ("tag", jNat a.tag), ("body", jNat b), ("vals", jStrs vs), ("def", d)]
+
+def ePNet (p : PNet) : Json :=
+  Json.mkObj [("e", eEnt p.e), ("buses", jArr ePBus p.buses),
+    ("builders", jArr (fun b : PBuilder => Json.mkObj [("e", eEnt b.e),
+        ("ops", jArr (fun o : POp => Json.mkObj [("k", jNat o.kind), ("f", jNat o.from), ("l", jNat o.len)]) b.ops)]) p.builders),
+    ("nodes", jArr (fun x : PNode => Json.mkObj [("e", eEnt x.e), ("nid", jNat x.nid), ("ifc", jNat x.ifc),
+        ("asg", jArr ePAsg x.asg)]) p.nodes),
+    ("types", jArr eEnt p.types), ("units", jArr eEnt p.units), ("enums", jArr eEnt p.enums),
+    ("attrs", jArr ePAttr p.attrs)]
+
+partial def eSig (s : Sig) : Json :=
+  let base := [("e", eEnt s.e), ("asg", jArr eAsg s.asg)]
+  match s.body with
+  | .std ty un =>
+    Json.mkObj (base ++ [("k", jNat 1), ("type", ty), ("unit", un.getD ""), ("enum", ""), ("gc", jNat 0),
+      ("kids", Json.arr #[])])
+  | .enm en =>
+    Json.mkObj (base ++ [("k", jNat 2), ("type", ""), ("unit", ""), ("enum", en), ("gc", jNat 0),
+      ("kids", Json.arr #[])])
+  | .mux gc kids =>
+    Json.mkObj (base ++ [("k", jNat 3), ("type", ""), ("unit", ""), ("enum", ""), ("gc", jNat gc),
+      ("kids", jArr (fun k : Kid => Json.mkObj [("sig", eSig k.sig), ("pos", jNat k.pos),
+          ("fixed", Json.bool k.grp.isNone), ("grp", jArr jNat (k.grp.getD []))]) kids)])
+
+def eMsg (m : Msg) : Json :=
+  Json.mkObj [("e", eEnt m.e), ("asg", jArr eAsg m.asg), ("mid", jNat m.mid),
+    ("static", match m.static with | none => jInt (-1) | some v => jNat v),
+    ("sigs", jArr (fun p : Sig × Nat => Json.mkObj [("sig", eSig p.1), ("pos", jNat p.2)]) m.sigs),
+    ("recvs", jArr (fun r : Recv => Json.mkObj [("node", r.node), ("num", jNat r.num)]) m.recvs)]
+
+def eBus (b : Bus) : Json :=
+  Json.mkObj [("e", eEnt b.e), ("builder", b.builder.getD ""), ("asg", jArr eAsg b.asg),
+    ("ifaces", jArr (fun i : Iface =>
+      Json.mkObj [("node", i.node), ("num", jNat i.num), ("msgs", jArr eMsg i.msgs)]) b.ifaces)]
+
+def eAttr (a : Attr) : Json :=
+  let (k, vs, d) : Nat × List String × String :=
+    match a.kind with
+    | .str => (0, [], "") | .int => (1, [], "") | .flt => (2, [], "") | .enm vs d => (3, vs, d)
+  Json.mkObj [("e", eEnt a.e), ("k", jNat k), ("vals", jStrs vs), ("def", d)]
+
+def eNet (n : Net) : Json :=
+  Json.mkObj [("e", eEnt n.e), ("buses", jArr eBus n.buses),
+    ("builders", jArr (fun b : Builder => Json.mkObj [("e", eEnt b.e),
+        ("ops", jArr (fun o : Op => Json.mkObj [("k", jNat o.kind), ("f", jNat o.from), ("l", jNat o.len)]) b.ops)]) n.t.builders),
+    ("nodes", jArr (fun x : Node => Json.mkObj [("e", eEnt x.e), ("nid", jNat x.nid), ("ifc", jNat x.ifc),
+        ("asg", jArr eAsg x.asg)]) n.t.nodes),
+    ("types", jArr eEnt n.t.types), ("units", jArr eEnt n.t.units), ("enums", jArr eEnt n.t.enums),
+    ("attrs", jArr eAttr n.t.attrs)]
+
+/-! ## views -/
+
+/-- the definitions a walk through the getters reaches -/
+def dropUnused (n : Net) : Net :=
+  let used := usedRefs n
+  { n with t :=
+    { builders := n.t.builders.filter (fun x => used.contains (RefK.builder, x.e.id))
+      nodes := usedNodes n
+      types := n.t.types.filter (fun x => used.contains (RefK.type, x.id))
+      units := n.t.units.filter (fun x => used.contains (RefK.unit, x.id))
+      enums := n.t.enums.filter (fun x => used.contains (RefK.enum, x.id))
+      attrs := n.t.attrs.filter (fun x => used.contains (RefK.attr, x.e.id)) } }
+
+def view (n : Net) : Net := norm (dropUnused n)
+
+def showErr : LoadErr → String
+  | .notFound _ id => s!"err notFound {id}"
+  | .unplaced ids => s!"err notFound {"|".intercalate ids}"
+  | .duplicated id => s!"err duplicated {id}"
+  | .twoPositions p => s!"err twoPositions {p}"
+  | .invalidOneof k => s!"err invalidOneof {k}"
+  | .missingOneof => "err missingOneof"
+  | .ifaceNegative => "err ifaceNegative"
+  | .ifaceOutOfBounds => "err ifaceOutOfBounds"
+  | .groupCountZero => "err groupCountZero"
+  | .groupId k => s!"err groupId {k}"
+  | .enumValuesEmpty => "err enumValuesEmpty"
+  | .attrValue => "err attrValue"
+  | .receiverIsSender => "err receiverIsSender"
+
+def handle (args : List String) : String :=
+  match args with
+  | ["save", js] =>
+    match Json.parse js >>= dNet with
+    | .error e => s!"bad-json {e}"
+    | .ok n => (ePNet (save n)).compress
+  | ["load", js] =>
+    match Json.parse js >>= dPNet with
+    | .error e => s!"bad-json {e}"
+    | .ok p =>
+      match load p with
+      | .error e => showErr e
+      | .ok n => "ok " ++ (eNet (view n)).compress
+  | ["wf", js] =>
+    match Json.parse js >>= dNet with
+    | .error e => s!"bad-json {e}"
+    | .ok n =>
+      let rt : Bool :=
+        match load (save n) with
+        | .error _ => false
+        | .ok m => (eNet m).compress == (eNet (norm n)).compress
+      s!"wf={wf n} inrange={inRange n} roundtrip={rt}"
+  | ["example", js] =>
+    -- the fixture of the stream is the example network of the theorems
+    match Json.parse js >>= dNet with
+    | .error e => s!"bad-json {e}"
+    | .ok n => s!"same={decide (n = Ex.net)}"
+  | ["example-saved", js] =>
+    match Json.parse js >>= dPNet with
+    | .error e => s!"bad-json {e}"
+    | .ok p => s!"same={decide (p = save Ex.net)}"
+  | ["print-example", "net"] => (eNet Ex.net).compress
+  | ["print-example", "norm"] => (eNet (norm Ex.net)).compress
+  | ["print-example", "saved"] => (ePNet (save Ex.net)).compress
+  | _ => "bad-op"
 
 end Acme.Driver.SaveD
